@@ -15,6 +15,8 @@ import (
 
 type fsm struct {
 	peer *peer
+	// out or in, fixed at creation
+	direction int
 
 	// the bgp ID received in the latest open message
 	remoteID uint32
@@ -45,12 +47,13 @@ type fsm struct {
 	idleHoldTimer     *time.Timer
 }
 
-func newFSM(peer *peer, conn net.Conn) *fsm {
+func newFSM(peer *peer, direction int, conn net.Conn) *fsm {
 	f := &fsm{
-		peer:    peer,
-		conn:    conn,
-		closeCh: make(chan struct{}),
-		doneCh:  make(chan struct{}),
+		peer:      peer,
+		direction: direction,
+		conn:      conn,
+		closeCh:   make(chan struct{}),
+		doneCh:    make(chan struct{}),
 		// we do not hold down the first time entering idle state
 		idleHoldTimer: time.NewTimer(0),
 	}
